@@ -144,3 +144,21 @@ func init() {
 		Rules:       []ruleFn{ruleR17_1, ruleR17_2, ruleR17_3, ruleR17_4, ruleR17_6, ruleR12_4, ruleR13_2},
 	})
 }
+
+func init() {
+	register(&propertySpec{
+		ID: "C18", NeedsServer: true,
+		Explanation: "decides that the notification is published only by the post-reply goroutine, gated by 'no error and at least one stored operation', that it carries the pusher's id, the datatype id and the handler's new end of the log on the topic of (collection, key), that publisher and subscriber agree on the topic, that own notifications are ignored and foreign ones sync iff behind, and the semaphore/re-check discipline of the realtime path. NOT decided: eventual convergence of realtime clients (schedules).",
+		Assumptions: []string{"MQTT delivers published messages to subscribers of the topic"},
+		Rules:       []ruleFn{ruleR18_1, ruleR18_2, ruleR18_3, ruleR18_4, ruleR18_5},
+	})
+}
+
+func init() {
+	register(&propertySpec{
+		ID: "C19", NeedsServer: true,
+		Explanation: "decides that a multi-operation patch is one transaction whose first failure aborts it, that patch paths are RFC 6901-decoded in the right order before use, that patchEach supports exactly the operation kinds the differ emits, that the REST client is volatile and never registered, and whether the REST endpoint inspects the push result (known finding F17: it discards it); plus the transaction gating rules. NOT decided: that the edit script reproduces the target (value-level).",
+		Assumptions: []string{"jsondiff.CompareJSON produces a correct RFC 6902 patch"},
+		Rules:       []ruleFn{ruleR19_1, ruleR19_2, ruleR19_3, ruleR19_4, ruleR19_5, ruleR09_1, ruleR09_2},
+	})
+}
